@@ -92,6 +92,44 @@ Proof. exact line_col_defined. Qed.
 Check C11_spec_defined : forall s off, lc_line_col s off = None <-> blen s < off.
 Print Assumptions C11_spec_defined.
 
+(* The specification [lc_line_col s off = lc_scan s off 1 1] is a left fold over the text whose steps are the
+   GraphQL LineTerminator rule: scanning p ++ q is scanning p and continuing in q (unless the cut splits a
+   \r\n), and \n, \r\n, a lone \r each add one line and reset the column to 1, any other scalar value adds
+   one column, an offset inside a character or between \r and \n stays before it. *)
+Theorem C11_spec_compositional : forall p q o line col,
+  crlf_cut p q = false ->
+  lc_scan (p ++ q) (blen p + o) line col =
+    match lc_scan p (blen p) line col with
+    | Some (l, c) => lc_scan q o l c
+    | None => None
+    end.
+Proof. exact line_col_compositional. Qed.
+Check C11_spec_compositional : forall p q o line col,
+  crlf_cut p q = false ->
+  lc_scan (p ++ q) (blen p + o) line col =
+    match lc_scan p (blen p) line col with
+    | Some (l, c) => lc_scan q o l c
+    | None => None
+    end.
+Print Assumptions C11_spec_compositional.
+
+Theorem C11_spec_steps : forall line col,
+  lc_scan [c_lf] 1 line col = Some (line + 1, 1) /\
+  lc_scan [c_cr; c_lf] 2 line col = Some (line + 1, 1) /\
+  lc_scan [c_cr] 1 line col = Some (line + 1, 1) /\
+  lc_scan [c_cr; c_lf] 1 line col = Some (line, col + 1) /\
+  (forall c, c <> c_lf -> c <> c_cr -> lc_scan [c] (u8len c) line col = Some (line, col + 1)) /\
+  (forall c k, 0 < k -> k < u8len c -> lc_scan [c] k line col = Some (line, col)).
+Proof. exact line_col_steps. Qed.
+Check C11_spec_steps : forall line col,
+  lc_scan [c_lf] 1 line col = Some (line + 1, 1) /\
+  lc_scan [c_cr; c_lf] 2 line col = Some (line + 1, 1) /\
+  lc_scan [c_cr] 1 line col = Some (line + 1, 1) /\
+  lc_scan [c_cr; c_lf] 1 line col = Some (line, col + 1) /\
+  (forall c, c <> c_lf -> c <> c_cr -> lc_scan [c] (u8len c) line col = Some (line, col + 1)) /\
+  (forall c k, 0 < k -> k < u8len c -> lc_scan [c] k line col = Some (line, col)).
+Print Assumptions C11_spec_steps.
+
 (* Spans.  Full statement (DESIGN.md C11_spans_inside / C11_name_span), NOT proved here because it needs
    the parser model (Parse/, built for C01/C02):
      for every node x of convert (tree (parse_document s)):  0 <= start x <= end x <= blen s, both on
